@@ -27,6 +27,9 @@ checks = {
  "C14": dict(cat="other", tech="bounded symbolic execution of go/ssa + SMT (z3): symbolic gates and symbolic malformed byte tails of symbolic length",
     text="MPCLC format only. Round trip Marshal/ParseMPCLC/Marshal on 3 signature shapes x 1..3 symbolic gates (byte-identical re-serialisation), and ParseMPCLC on a valid header followed by up to 14 (thorough 27) fully symbolic bytes of symbolic length with symbolic NumGates/NumWires: never panics, and an accepted circuit has inputs defined before use and all wires assigned. One defect found this way was repaired (fix: f84e94e).",
     ref="DESIGN.md C14", engine="gosymx"),
+ "C06": dict(cat="other", tech="bounded symbolic execution of go/ssa + rewriting + SMT (z3): symbolic Delta, keys, PRG/AES as uninterpreted functions, all choice vectors",
+    text="The real IKNP extension (label and packed-bit form) and the COT layer are executed symbolically at batch sizes 1..513 with every choice bit, Delta, all base keys and all PRG/AES outputs symbolic (ideal base OT); the correlation received_i = sent_i xor choice_i*Delta and 'receiver holds exactly the chosen label' are obligations for all choice vectors. One defect found this way (ReceiveBits for n not a multiple of 64) was repaired (fix: 16cbb1c). RSA, Chou-Orlandi and ROT are outside the claim.",
+    ref="DESIGN.md C06", engine="gosymx"),
  "C07": dict(cat="translation_validation", tech="SMT miter (z3) of the real builders' gate lists against bit-vector reference semantics, all operand values",
     text="Each real builder invocation (operator x operand widths x result width x target x algorithm) is compiled by the real circuits.Compiler and its output is proved equal to the exact function mod 2^wz for ALL operand values by z3 (per-output-bit incremental miter); the width/configuration quantifier is an enumerated, stated family. Counterexamples are replayed through the real Circuit.Compute.",
     ref="DESIGN.md C07", engine="circtv", script="python3-vt",
